@@ -938,8 +938,12 @@ func registerC08() {
 	register(&propDef{
 		id: "C08",
 		rule: "same engine; directed list enumerates ALL tuples of shard kinds {ok, unready, status-GET fails, runtime-GET fails, push accepted->match, push accepted->still differs, push rejected, push accepted->second GET fails} over 1-4 positions x pending work {new targets, relief, scale-down} x idle mode; then random cases with a high share of unhealthy shards; the per-shard request log is judged; " +
+			"plus 1/4 closed loops (engine E2, real api.Get / api.Post over loopback): one shard lists 7000-16000 targets (status answer above 1.5 MiB), is reachable but reports another hash and rejects the push for two cycles: no target update to it, none of its targets given to the other shard, then it takes part again; " +
 			"non-trivial = at least one shard not in sync and at least one in sync, or a hash-mismatch shard; distinct = hash of the case with sizes bucketed",
 		judge: judgeC08, nDirect: nA, direct: direct,
+		// closed loop (engine E2, real api.Get/api.Post): one shard with 7000-16000 targets, reachable and out of sync
+		nExtra:  map[string]int{"quick": e2.C08BigCases("quick"), "thorough": e2.C08BigCases("thorough")},
+		extra:   e2.RunC08Big,
 		bias:    genBias{unhealthyPer12: 6},
 		nRandom: map[string]int{"quick": 10000, "thorough": 200000},
 		reps:    map[string]int{"quick": 2, "thorough": 6},
@@ -983,14 +987,32 @@ func c05ClosedLoop(w *core.WorkerCtx, k int) *core.CaseResult {
 			sc.ScrapePlan = append(sc.ScrapePlan, []int{3, dst, 3, 3, 3, 3, 3, 3})
 		}
 	}
+	if k%8 == 3 {
+		// directed: the same relief, but the update that marks the targets in_transfer on the overloaded source is
+		// LOST in the cycle the moves begin (the destination gets its copies); the destination's Prometheus
+		// scrapes rarely: the source copies may only go when the destination has really scraped them three times
+		t := func(id, kept int) e2.TargetSpec { return e2.TargetSpec{ID: id, Kept: kept, Explorer: "up"} }
+		spec = e2.Spec{MaxHead: 100, MaxProc: 150, Min: 2, Max: 8, Idle: "1000h", InitShards: 2, KeepPVC: true,
+			Targets: []e2.TargetSpec{t(0, 60), t(1, 49), t(2, r.PickI(20, 30))},
+			Initial: []e2.Placement{{Shard: 0, ID: 0}, {Shard: 0, ID: 1}, {Shard: 0, ID: 2}}}
+		sc = e2.Scenario{Spec: spec, Perturbed: 8}
+		sc.Events = []e2.Event{{AtCycle: 1, Kind: "dropPost", Shard: 0, Cycles: 1}}
+		for c := 0; c < sc.Perturbed; c++ {
+			dst := 1
+			if c%3 == 2 {
+				dst = 0
+			}
+			sc.ScrapePlan = append(sc.ScrapePlan, []int{3, dst, 3, 3, 3, 3, 3, 3})
+		}
+	}
 	// a third of the runs with a restart / lost update in the middle of moves
-	if k%3 == 0 && k%8 != 7 {
+	if k%3 == 0 && k%8 != 7 && k%8 != 3 {
 		kinds := []string{"restart", "dropPost", "loseAck", "unready", "failStatus"}
 		sc.Events = append(sc.Events, e2.Event{AtCycle: r.Intn(sc.Perturbed), Kind: kinds[r.Intn(len(kinds))], Shard: r.Intn(3), Cycles: 1})
 	}
 	// another third: one pod cannot build the job's HTTP client for the whole run (its proxy rejects every
 	// scrape of that job without contacting the target): no move INTO that pod may ever complete
-	if k%3 == 1 && k%8 != 7 {
+	if k%3 == 1 && k%8 != 7 && k%8 != 3 {
 		sc.Events = append(sc.Events, e2.Event{AtCycle: 0, Kind: "noJobClient", Shard: r.Intn(2), Cycles: 1})
 		sc.NoConvergence = true
 	}
@@ -1005,6 +1027,7 @@ func c05ClosedLoop(w *core.WorkerCtx, k int) *core.CaseResult {
 	res.AddStat("closed_loop_runs", 1)
 	res.AddStat("closed_loop_moves_begun", int64(out.Moves))
 	res.AddStat("closed_loop_handovers_judged_with_own_counts", int64(out.IndependentHandovers))
+	res.AddStat("closed_loop_moves_judged_whose_mark_was_lost", int64(out.LostMarkMoves))
 	res.Nontrivial = out.IndependentHandovers > 0
 	for _, v := range out.HandoverViol2 {
 		res.Violate("C05/closed-loop/early-removal", "%s", v)
